@@ -97,14 +97,29 @@ func (e *Engine) knownTagTypes() []types.Type {
 
 func (fc *FnCtx) hasTName(T types.Type) string {
 	n := "hasT_" + sanitize(fc.e.typeName(T))
-	fc.vc.declUF(n, []Sort{SInt, SInt}, SBool)
+	if !fc.vc.ufDecl[n] {
+		fc.vc.declUF(n, []Sort{SInt, SInt}, SBool)
+		f := "first_" + sanitize(fc.e.typeName(T))
+		fc.vc.declUF(f, []Sort{SInt, SInt}, SInt)
+		// leaf error types of the package (none has Unwrap/As/Is methods) and
+		// errors.New values: the tree is the value itself
+		for _, X := range fc.e.errorTypes() {
+			tag := num(int64(fc.e.tagOf(X)))
+			if types.Identical(X, T) {
+				fc.vc.assert(fmt.Sprintf("(forall ((v Int)) (%s %s v))", n, tag))
+				fc.vc.assert(fmt.Sprintf("(forall ((v Int)) (= (%s %s v) v))", f, tag))
+			} else {
+				fc.vc.assert(fmt.Sprintf("(forall ((v Int)) (not (%s %s v)))", n, tag))
+			}
+		}
+		fc.vc.assert(fmt.Sprintf("(forall ((v Int)) (not (%s %d v)))", n, fc.e.tagOfName("*errors.errorString")))
+	}
 	return n
 }
 
 func (fc *FnCtx) firstName(T types.Type) string {
-	n := "first_" + sanitize(fc.e.typeName(T))
-	fc.vc.declUF(n, []Sort{SInt, SInt}, SInt)
-	return n
+	fc.hasTName(T)
+	return "first_" + sanitize(fc.e.typeName(T))
 }
 
 func (fc *FnCtx) errHasType(v SV, T types.Type) Term {
@@ -116,8 +131,24 @@ func (fc *FnCtx) errFirst(v SV, T types.Type) Term {
 }
 
 func (fc *FnCtx) errContains(a, b SV) Term {
-	fc.vc.declUF("errContains", []Sort{SInt, SInt, SInt, SInt}, SBool)
+	fc.declContains()
 	return mkApp("errContains", a.tag(), a.ival(), b.tag(), b.ival())
+}
+
+func (fc *FnCtx) declContains() {
+	if fc.vc.ufDecl["errContains"] {
+		return
+	}
+	fc.vc.declUF("errContains", []Sort{SInt, SInt, SInt, SInt}, SBool)
+	// every non-nil error contains itself
+	fc.vc.assert("(forall ((t Int) (v Int)) (=> (not (= t 0)) (errContains t v t v)))")
+	tags := []int{fc.e.tagOfName("*errors.errorString")}
+	for _, X := range fc.e.errorTypes() {
+		tags = append(tags, fc.e.tagOf(X))
+	}
+	for _, t := range tags {
+		fc.vc.assert(fmt.Sprintf("(forall ((v Int) (xt Int) (xv Int)) (= (errContains %d v xt xv) (and (= xt %d) (= xv v))))", t, t))
+	}
 }
 
 // leafErrorFacts: value (tag,val) of concrete leaf type X (nil X = opaque leaf
@@ -133,7 +164,7 @@ func (fc *FnCtx) leafErrorFacts(st *State, tag, val Term, X types.Type) {
 			vc.assume(st, mkNot(mkApp(fc.hasTName(T), tag, val)))
 		}
 	}
-	vc.declUF("errContains", []Sort{SInt, SInt, SInt, SInt}, SBool)
+	fc.declContains()
 	vc.assume(st, fmt.Sprintf("(forall ((xt Int) (xv Int)) (= (errContains %s %s xt xv) (and (= xt %s) (= xv %s))))", tag, val, tag, val))
 }
 
@@ -204,7 +235,7 @@ func (fc *FnCtx) wrapFacts(st *State, parent SV, children []SV) {
 		vc.assume(st, mkEq(mkApp(fc.hasTName(T), parent.tag(), parent.ival()), mkOr(anyHas...)))
 		vc.assume(st, mkEq(mkApp(fc.firstName(T), parent.tag(), parent.ival()), first))
 	}
-	vc.declUF("errContains", []Sort{SInt, SInt, SInt, SInt}, SBool)
+	fc.declContains()
 	alts := []Term{mkAnd(mkEq("xt", parent.tag()), mkEq("xv", parent.ival()))}
 	for _, c := range children {
 		alts = append(alts, mkAnd(mkNot(mkEq(c.tag(), "0")), mkApp("errContains", c.tag(), c.ival(), "xt", "xv")))
